@@ -17,6 +17,9 @@ Step(e) ==
       [] e.op = "Unrelate" -> Unrelate(e.x[1], e.x[2], e.y[1], e.y[2], e.rel, e.ph)
       [] e.op = "RelateNone" -> RelateNone
       [] e.op = "Delete" -> Delete(e.x[1], e.x[2])
+      [] e.op = "LoadBuild" -> LoadBuild(e.rows, IF e.g >= 0 THEN e.g ELSE gen)
+      [] e.op = "NewRow" -> NewRow(e.row, IF e.g >= 0 THEN e.g ELSE gen)
+      [] e.op = "SaveLoad" -> SaveLoad(IF e.g >= 0 THEN e.g ELSE gen)
       [] e.op = "SetAttr" -> SetAttr(e.x[1], e.x[2], e.n, e.v)
       [] e.op = "DelAttr" -> IF Stored(e.x[1], e.x[2], e.n) THEN DelAttr(e.x[1], e.x[2], e.n)
                              ELSE UNCHANGED mvars /\ res' = e.res
@@ -95,6 +98,18 @@ SerOK(e) == \A c \in ClassSet : \A k \in DOMAIN e.ser[c] :
 HasAbsent == \E c \in ClassSet : \E i \in Live(c) : \E n \in DOMAIN val[c][i] : val[c][i][n] = "absent"
 ResOK(e) == res = e.res \/ (HasAbsent /\ res \in {"RelateException", "UnrelateException"} /\ e.res = "PY:AttributeError")
 
+\* the schema of a loaded metamodel: classes with ordered typed attributes, unique
+\* identifiers, associations with keys, multiplicity, conditionality and phrases
+SchemaOK(e) ==
+    e.schema.extra = <<"-">> \/
+    /\ e.schema.extra = <<>>
+    /\ \A c \in ClassSet : /\ e.schema.attrs[c] = [j \in DOMAIN Attrs[c] |-> <<Attrs[c][j].n, Attrs[c][j].t>>]
+                           /\ {e.schema.uniques[c][j] : j \in DOMAIN e.schema.uniques[c]}
+                                = {<<Uniques[c][j].name, Uniques[c][j].attrs>> : j \in DOMAIN Uniques[c]}
+                           /\ Len(e.schema.uniques[c]) = Len(Uniques[c])
+    /\ {e.schema.assocs[j] : j \in DOMAIN e.schema.assocs} = {Assocs[a] : a \in AIdx}
+    /\ Len(e.schema.assocs) = NA
+
 \* after the rejected creation of an instance with an attribute of unknown type only
 \* the outcome is fixed by the property (the trace ends there)
 Conform(e) == IF e.op = "NewUnknown" THEN (IF res = e.res THEN "" ELSE "res") ELSE FirstBad(<<
@@ -103,15 +118,20 @@ Conform(e) == IF e.op = "NewUnknown" THEN (IF res = e.res THEN "" ELSE "res") EL
     <<"pool", ProjPool = e.pool>>,
     <<"nav", ProjNav = e.nav>>,
     <<"attr", ProjAttr = e.attr>>,
+    <<"schema", SchemaOK(e)>>,
+    <<"fixpoint", e.fix # "no">>,
     <<"spelling", SpellOK(e)>>,
     <<"serialized", SerOK(e)>>,
     <<"query", ObsOK(e)>>
   >>)
 
+\* a call outside the domain of the property ends the validation of its trace
 Apply == /\ ph = 0 /\ TEnabled
          /\ Step(Ev)
-         /\ IF Admissible(Ev) THEN ph' = 1 /\ UNCHANGED tvars
-                              ELSE ph' = 0 /\ Advance("admissible", <<>>)
+         /\ IF res' = "OutOfDomain"
+            THEN ph' = 0 /\ l' = TLen + 1 /\ tid' = tid /\ bad' = "" /\ PrintT(<<"DONE", tid>>)
+            ELSE IF Admissible(Ev) THEN ph' = 1 /\ UNCHANGED tvars
+                 ELSE ph' = 0 /\ Advance("admissible", <<>>)
 
 Check == /\ ph = 1 /\ UNCHANGED vars /\ ph' = 0
          /\ LET b == Conform(Ev) IN
